@@ -115,6 +115,10 @@ func rGenTemplate(rng *rand.Rand) []rRoute {
 	if rng.Intn(2) == 0 {
 		rs = append(rs, rRoute{rNF, base + "/*"})
 	}
+	if rng.Intn(2) == 0 {
+		// a not-found route sharing its node with method handlers, and a less specific route matching the same paths
+		rs = append(rs, rRoute{rNF, rs[1].pattern}, rRoute{m2, "/:kind/:name"})
+	}
 	seen := map[string]bool{}
 	var out []rRoute
 	for _, r := range rs {
